@@ -866,10 +866,8 @@ def evaluate__replace(self: XPathFunction, context: ta.ContextType = None) -> st
             msg = f"Regular expression {pattern!r} matches zero-length string"
             raise self.error('FORX0003', msg)
         elif q_flag:
-            # use replacement string as is (but inactivating escapes)
-            replacement = replacement.replace('\\', '\\\\')
-            input_string = input_string.replace('\\', '\\\\')
-            return re_pattern.sub(replacement, input_string).replace('\\\\', '\\')
+            # use replacement string as is
+            return re_pattern.sub(lambda m: replacement, input_string)
 
         elif Patterns.replacement.search(replacement) is None:
             raise self.error('FORX0004', f"Invalid replacement string {replacement!r}")
@@ -878,7 +876,7 @@ def evaluate__replace(self: XPathFunction, context: ta.ContextType = None) -> st
                 if '$%d' % g in replacement:
                     replacement = re.sub(r'(?<!\\)\$%d' % g, r'\\g<%d>' % g, replacement)
 
-            return re_pattern.sub(replacement, input_string).replace('\\$', '$')
+            return re_pattern.sub(replacement.replace('\\$', '$'), input_string)
 
 
 @method(function('tokenize', nargs=(1, 3),
